@@ -285,3 +285,196 @@ func classBarClosure(P *Program, ob *Obligation) string {
 	}
 	return "other"
 }
+
+// --- (*bFiller).Fill: build a real filler whose components have the model's widths ---------
+
+func init() {
+	replayHarnesses = append(replayHarnesses,
+		replayHarness{match: prefixMatch("(*bFiller).Fill/"), pkgDir: ".", render: renderBarFill, class: classBarFill})
+}
+
+type fillModel struct {
+	widths  [6]int // lbound rbound refiller filler tip(unused) padding
+	known   [6]bool
+	tipW    []int
+	stat    map[string]string
+	gotStat bool
+	tipOnComplete string
+	tipWidth      int
+}
+
+func readFillModel(ob *Obligation) (*fillModel, bool) {
+	fm := &fillModel{}
+	ref, ok := modelInt(ob, "in_s")
+	if !ok {
+		return nil, false
+	}
+	if v, ok := ob.Result.Model["in_stat"]; ok {
+		fm.stat = structModel(v, "S_decor_Statistics")
+		fm.gotStat = fm.stat != nil
+	}
+	if comps, ok := heapField(ob, "F$bFiller$components", ref); ok {
+		for i := 0; i < 6; i++ {
+			if cv, ok := arrayAt(comps, fmt.Sprint(i)); ok {
+				if f := structModel(cv, "S_component"); f != nil {
+					if w, err := strconvAtoi(f["width"]); err == nil {
+						fm.widths[i] = w
+						fm.known[i] = true
+					}
+				}
+			}
+		}
+	}
+	// tip: onComplete flag and the width of the frame the call would pick
+	fm.tipOnComplete = "false"
+	fm.tipWidth = -1
+	if tv, ok := heapField(ob, "F$bFiller$tip", ref); ok {
+		n := parseSxFull(tv)
+		if len(n.list) == 4 {
+			if n.list[1].atom == "true" {
+				fm.tipOnComplete = "true"
+			}
+			cnt, ok1 := n.list[2].intVal()
+			sl := n.list[3]
+			if ok1 && len(sl.list) == 5 {
+				base, okb := sl.list[1].intVal()
+				off, oko := sl.list[2].intVal()
+				ln, okl := sl.list[3].intVal()
+				if okb && oko && okl {
+					var c, o, l int
+					fmt.Sscanf(cnt, "%d", &c)
+					fmt.Sscanf(off, "%d", &o)
+					fmt.Sscanf(ln, "%d", &l)
+					if l > 0 {
+						idx := o + c%l
+						if ev, ok := ob.Result.Model["E$S_component@0"]; ok {
+							if inner, ok := arrayAt(ev, base); ok {
+								if cv, ok := arrayAt(inner, fmt.Sprint(idx)); ok {
+									if f := structModel(cv, "S_component"); f != nil {
+										if w, err := strconvAtoi(f["width"]); err == nil {
+											fm.tipWidth = w
+										}
+									}
+								}
+							}
+						}
+					}
+				}
+			}
+		}
+	}
+	return fm, fm.gotStat
+}
+
+func strconvAtoi(s string) (int, error) {
+	var n int
+	_, err := fmt.Sscanf(s, "%d", &n)
+	return n, err
+}
+
+func widthString(w int, ch string) string {
+	if w <= 0 {
+		return ""
+	}
+	if w > 64 {
+		w = 64
+	}
+	return strings.Repeat(ch, w)
+}
+
+func renderBarFill(P *Program, ob *Obligation) (string, bool) {
+	fm, ok := readFillModel(ob)
+	if !ok {
+		return "", false
+	}
+	get := func(i int, def int) int {
+		if fm.known[i] {
+			return fm.widths[i]
+		}
+		return def
+	}
+	// the tip frame: when the model says nothing, use a tip wider than the body (the class
+	// the `exact` clause guards against) only if the obligation is about width
+	tipW := 1
+	if fm.tipWidth >= 0 {
+		tipW = fm.tipWidth
+	} else if strings.Contains(ob.Name, "ensures:exact") || strings.Contains(ob.Name, "ensures:fits") {
+		tipW = 2
+	}
+	tipOnComplete := ""
+	if fm.tipOnComplete == "true" {
+		tipOnComplete = ".TipOnComplete()"
+	}
+	val := func(k, def string) string {
+		if v, ok := fm.stat[k]; ok && v != "" {
+			return v
+		}
+		return def
+	}
+	src := fmt.Sprintf(`package mpb
+
+import (
+	"bytes"
+	"testing"
+	"time"
+
+	"github.com/mattn/go-runewidth"
+	"github.com/vbauerster/mpb/v8/decor"
+)
+
+// oracle (C07): Fill terminates; the body occupies exactly the allotted width when it is
+// drawn and never more than the available width.
+func TestGowpReplay(t *testing.T) {
+	style := BarStyle().Lbound(%q).Rbound(%q).Refiller(%q).Filler(%q).Tip(%q).Padding(%q)%s
+	stat := decor.Statistics{AvailableWidth: %s, RequestedWidth: %s, Total: %s, Current: %s, Refill: %s, Completed: %s}
+	if stat.AvailableWidth > 4096 {
+		t.Skip("model width too large to replay")
+	}
+	filler := style.Build()
+	var buf bytes.Buffer
+	done := make(chan error, 1)
+	go func() { done <- filler.Fill(&buf, stat) }()
+	select {
+	case err := <-done:
+		if err != nil {
+			t.Skipf("Fill returned an error: %%v", err)
+		}
+	case <-time.After(5 * time.Second):
+		t.Fatalf("REPRODUCED: Fill did not return within 5s (style %%+v, stat %%+v)", style, stat)
+	}
+	got := runewidth.StringWidth(buf.String())
+	t.Logf("stat %%+v output %%q width %%d", stat, buf.String(), got)
+	if got > stat.AvailableWidth {
+		t.Fatalf("REPRODUCED: body is %%d columns wide, available %%d", got, stat.AvailableWidth)
+	}
+	allot := stat.RequestedWidth
+	if allot < 1 || allot > stat.AvailableWidth {
+		allot = stat.AvailableWidth
+	}
+	if got != 0 && got != allot {
+		t.Fatalf("REPRODUCED: body is %%d columns wide, allotted %%d", got, allot)
+	}
+}
+`, widthString(get(0, 1), "["), widthString(get(1, 1), "]"), widthString(get(2, 1), "+"), widthString(get(3, 1), "="),
+		widthString(tipW, ">"), widthString(get(5, 1), "-"), tipOnComplete,
+		val("AvailableWidth", "3"), val("RequestedWidth", "0"), val("Total", "2"), val("Current", "1"), val("Refill", "0"), val("Completed", "false"))
+	return src, true
+}
+
+func classBarFill(P *Program, ob *Obligation) string {
+	fm, ok := readFillModel(ob)
+	if !ok {
+		return ""
+	}
+	switch {
+	case strings.Contains(ob.Name, "variant#1") && fm.known[3] && fm.widths[3] == 0:
+		return "w=0:filler"
+	case strings.Contains(ob.Name, "variant#2") && fm.known[2] && fm.widths[2] == 0:
+		return "w=0:refiller"
+	case strings.Contains(ob.Name, "variant#3") && fm.known[5] && fm.widths[5] == 0:
+		return "w=0:padding"
+	case (strings.Contains(ob.Name, "ensures:exact") || strings.Contains(ob.Name, "ensures:fits")) && fm.tipWidth > 0:
+		return "tip-wider-than-body"
+	}
+	return "other"
+}
